@@ -92,9 +92,16 @@ def stored(self, cterm, kterm, bterm, old, new):
     return z3.And(f1 == z3.Or(f0, unk), m1 == z3.If(unk, m0, val))
 
 
-def block_done(self, bterm, old, new, upto_idx=16, upto_off=16, own=True):
+class Dom:
+    """one analysis: its base key, the value type of its tables, the `stored` relation and the context fields it writes"""
+    def __init__(self, key, val_ty, stored_fn, fields):
+        self.key, self.val_ty, self.stored, self.fields = key, val_ty, stored_fn, fields
+
+
+def block_done(self, bterm, old, new, upto_idx=16, upto_off=16, own=True, dom=None):
     """every context of the block shows its information (positions < upto_idx, offsets < upto_off)"""
-    fee = z3.StringVal("Fee")
+    stored = dom.stored if dom else globals()["stored"]
+    fee = z3.StringVal(dom.key if dom else "Fee")
     c0 = _ctx_term(self, bterm, old.st)
     i, o = z3.Int(fresh_name("di")), z3.Int(fresh_name("do"))
     parts = []
@@ -133,31 +140,33 @@ def owners(self, st=None):
             OWN_B(rl) == b, OWN_K(rl) == 3, OWN_I(rl) == o, ctx.ex.type_constraint(VRef(rl, K, ctx.ex)))))))))
 
 
-def untouched(self, old, new, done_pred):
-    """contexts owned by blocks not yet processed keep their fee fields"""
+def untouched(self, old, new, done_pred, dom=None):
+    """contexts owned by blocks not yet processed keep the fields this analysis writes"""
     c = z3.Int(fresh_name("uc"))
-    return z3.ForAll([c], z3.Implies(z3.Not(done_pred(c)), z3.And(
-        z3.Select(_F("max_fee_unknown", new.st), c) == z3.Select(_F("max_fee_unknown", old.st), c),
-        z3.Select(_F("max_fee", new.st), c) == z3.Select(_F("max_fee", old.st), c))))
+    fields = dom.fields if dom else [("max_fee_unknown", z3.BoolSort()), ("max_fee", z3.IntSort())]
+    same = [z3.Select(new.st.harr(f"F:BlockTransactionContext.{f}", z3.IntSort(), srt), c)
+            == z3.Select(old.st.harr(f"F:BlockTransactionContext.{f}", z3.IntSort(), srt), c) for f, srt in fields]
+    return z3.ForAll([c], z3.Implies(z3.Not(done_pred(c)), z3.And(same)))
 
 
-def tables_ready(self):
-    """every fee key has a cell for every block of the function"""
+def tables_ready(self, dom=None):
+    """every key of the analysis has a cell for every block of the function"""
     ctx = current()
     st = ctx.st
-    fee = z3.StringVal("Fee")
+    fee = z3.StringVal(dom.key if dom else "Fee")
+    FVT = dom.val_ty if dom else FV
     f = fn_of(self).term
-    dom = ctx.ex.dict_dom(self._block_contexts, st)
+    dom_ = ctx.ex.dict_dom(self._block_contexts, st)
     b, i, o = z3.Int(fresh_name("tb")), z3.Int(fresh_name("ti")), z3.Int(fresh_name("to"))
 
     def has(k):
-        inner = VDict(BB, FV, z3.Select(ctx.ex.dict_map(self._block_contexts, st), k))
-        return z3.And(z3.Select(dom, k), z3.Select(ctx.ex.dict_dom(inner, st), b))
+        inner = VDict(BB, FVT, z3.Select(ctx.ex.dict_map(self._block_contexts, st), k))
+        return z3.And(z3.Select(dom_, k), z3.Select(ctx.ex.dict_dom(inner, st), b))
     tc = z3.Select(ctx.ex.dict_dom(fn_of(self)._transaction_contexts, st), b)
-    return VBool(z3.ForAll([b], z3.Implies(INBLK(f, b), z3.And(
+    return VBool(z3.And(z3.Select(dom_, fee), z3.ForAll([b], z3.Implies(INBLK(f, b), z3.And(
         tc, has(fee),
         z3.ForAll([i], z3.Implies(z3.And(i >= 0, i < 16), z3.And(has(GKF(i, fee)), has(AKF(i, fee))))),
-        z3.ForAll([o], z3.Implies(z3.And(o >= -15, o <= 15, o != 0), has(RKF(o, fee))))))))
+        z3.ForAll([o], z3.Implies(z3.And(o >= -15, o <= 15, o != 0), has(RKF(o, fee)))))))))
 
 
 c = contract(FEE + "_store_results", params={"self": T.Ref("FeeField")}, returns=T.NoneT,
@@ -181,12 +190,12 @@ def _inblk(self):
     return VBool(FA([m], z3.Implies(z3.And(m >= 0, m < n), INBLK(f, at)), at))
 
 
-def _blocks_done(self, old, new, upto):
+def _blocks_done(self, old, new, upto, dom=None):
     ctx = current()
     bl = fn_of(self)._blocks
     m = z3.Int(fresh_name("dm"))
     n = ctx.ex.list_len(bl, ctx.st).term if upto is None else upto
-    return z3.ForAll([m], z3.Implies(z3.And(m >= 0, m < n), block_done(self, ctx.ex.list_get(bl, m, ctx.st).term, old, new)))
+    return z3.ForAll([m], z3.Implies(z3.And(m >= 0, m < n), block_done(self, ctx.ex.list_get(bl, m, ctx.st).term, old, new, dom=dom)))
 
 
 def _owned_by_first(self, c_, upto):
@@ -227,3 +236,68 @@ invariant(c, 3, "offset", lambda it, i, self, block, entry, cur, i_block: And(
                                                        _touched_now(c_, block, z3.IntVal(16), i.term - 15))))), label="offsets_done")
 must_fail(c, "nothing_written", lambda old, new: VBool(z3.And(_F("max_fee", new.st) == _F("max_fee", old.st),
                                                                   _F("max_fee_unknown", new.st) == _F("max_fee_unknown", old.st))))
+
+
+# ---- the same contract for the transaction-kind analysis (C07): `transaction_types` of every context lists exactly the kinds ----
+from pyvc.values import sort_of      # noqa: E402
+TT = T.Enum("TealerTransactionType")
+TXN = "tealer/analyses/dataflow/transaction_context/txn_types.py::TxnType."
+
+
+def _set_cell(self, kterm, bterm, st, val_ty):
+    ctx = current()
+    inner = VDict(BB, val_ty, z3.Select(ctx.ex.dict_map(self._block_contexts, st), kterm))
+    return z3.Select(ctx.ex.dict_map(inner, st), bterm)          # the z3 set (array elem -> Bool)
+
+
+def stored_types(self, cterm, kterm, bterm, old, new):
+    """the context's `transaction_types` (a new list) holds every kind of the computed set exactly once, and nothing else"""
+    ctx = current()
+    s_ = _set_cell(self, kterm, bterm, old.st, T.Set(TT))
+    fld = new.st.harr("F:BlockTransactionContext.transaction_types", z3.IntSort(), z3.IntSort())
+    lst = z3.Select(fld, cterm)
+    es = sort_of(TT)
+    bag = new.st.harr(f"L.bag:{es}", z3.IntSort(), z3.ArraySort(es, z3.IntSort()))
+    x = z3.Const(fresh_name("sx"), es)
+    # (the list is an allocated object: later allocations cannot collide with it)
+    return z3.And(lst < new.st.alloc_ptr(), lst > 0,
+                  z3.ForAll([x], z3.Select(z3.Select(bag, lst), x) == z3.If(z3.Select(s_, x), z3.IntVal(1), z3.IntVal(0))))
+
+
+DOM_TT = Dom("TransactionType", T.Set(TT), stored_types, [("transaction_types", z3.IntSort())])
+
+
+def _mk_store(target, self_cls, dom, tags, base_key_assume):
+    c_ = contract(target, params={"self": T.Ref(self_cls)}, returns=T.NoneT,
+                  modifies=[f"F:BlockTransactionContext.{f}" for f, _ in dom.fields], tags=tags)
+    c_.field_types = {("DataflowTransactionContext", "_block_contexts"): T.Dict(T.Str, T.Dict(BB, dom.val_ty), default=True),
+                      ("BlockTransactionContext", "transaction_types"): T.List(TT, "bag")}
+    c_.timeout_factor = 4.0
+    c_.axiom_bags = True
+    c_.loop_havoc = {1: [], 2: [], 3: []}
+    assumes(c_, "inblk_def", lambda self: _inblk(self))
+    assumes(c_, "base_key", lambda: det_valid_key(base_key_assume))
+    requires(c_, "owners", lambda self: owners(self))
+    requires(c_, "tables_ready", lambda self: tables_ready(self, dom))
+    ensures(c_, "stored", lambda self, old, new: VBool(_blocks_done(self, old, new, None, dom)),
+            note="for every block, the own / per-index / absolute / relative contexts show exactly what the analysis computed for the block")
+    ensures(c_, "frame", lambda self, old, new: VBool(untouched(self, old, new, lambda c2: _owned_by_first(self, c2, None), dom)))
+    invariant(c_, 1, "block", lambda it, i, self, entry, cur: And(
+        i <= Len(it), VBool(_blocks_done(self, entry, cur, i.term, dom)),
+        VBool(untouched(self, entry, cur, lambda c2: _owned_by_first(self, c2, i.term), dom))), label="blocks_done")
+    invariant(c_, 2, "idx", lambda it, i: i <= Len(it), label="positions_index")
+    invariant(c_, 2, "idx", lambda it, i, self, entry, cur, i_block: VBool(_blocks_done(self, entry, cur, i_block.term, dom)), label="positions_earlier_blocks")
+    invariant(c_, 2, "idx", lambda it, i, self, block, entry, cur: VBool(
+        block_done(self, block.term, entry, cur, upto_idx=i.term, upto_off=z3.IntVal(-15), dom=dom)), label="positions_done")
+    invariant(c_, 2, "idx", lambda it, i, self, block, entry, cur, i_block: VBool(
+        untouched(self, entry, cur, lambda c2: z3.Or(_owned_by_first(self, c2, i_block.term),
+                                                     _touched_now(c2, block, i.term, z3.IntVal(-15))), dom)), label="positions_untouched")
+    invariant(c_, 3, "offset", lambda it, i, self, block, entry, cur, i_block: And(
+        i <= Len(it), VBool(_blocks_done(self, entry, cur, i_block.term, dom)),
+        VBool(block_done(self, block.term, entry, cur, upto_idx=z3.IntVal(16), upto_off=i.term - 15, dom=dom)),
+        VBool(untouched(self, entry, cur, lambda c2: z3.Or(_owned_by_first(self, c2, i_block.term),
+                                                           _touched_now(c2, block, z3.IntVal(16), i.term - 15)), dom))), label="offsets_done")
+    return c_
+
+
+_mk_store(TXN + "_store_results", "TxnType", DOM_TT, ["C07", "C13"], "TransactionType")
